@@ -111,10 +111,43 @@ type c16set struct {
 	intgrid bool // integer triangle vertices: queries are placed on integer points too
 }
 
-func c16scope(m modeling.Mesh) []trees.Element {
+func c16scope(m modeling.Mesh) []trees.Element { return c16scopeAttr(m, modeling.PositionAttribute) }
+
+func c16scopeAttr(m modeling.Mesh, attr string) []trees.Element {
 	out := make([]trees.Element, m.PrimitiveCount())
-	m.ScanPrimitives(func(i int, p modeling.Primitive) { out[i] = p.Scope(modeling.PositionAttribute) })
+	m.ScanPrimitives(func(i int, p modeling.Primitive) { out[i] = p.Scope(attr) })
 	return out
+}
+
+const c16altAttr = "verif_alt"
+
+// one time in three the geometry the tree is built over lives in ANOTHER Float3 attribute, and Position holds a decoy with
+// different geometry (different planes, boxes, distances): Mesh.OctTreeWithAttributeAndDepth(attr, d) and p.Scope(attr)
+func (c *Ctx) c16alt(m modeling.Mesh, real []v3) (modeling.Mesh, string) {
+	if c.Rng.Intn(3) != 0 {
+		return m, modeling.PositionAttribute
+	}
+	decoy := make([]v3, len(real))
+	for i, v := range real {
+		decoy[i] = vector3.New(v.Z()*0.5+3+c.Rng.Float64(), v.X()-1+c.Rng.Float64(), v.Y()*2+2+c.Rng.Float64())
+	}
+	c.Note("set.non-position-attribute")
+	return m.SetFloat3Attribute(modeling.PositionAttribute, decoy).SetFloat3Attribute(c16altAttr, real), c16altAttr
+}
+
+func c16build(m modeling.Mesh, attr string) func(d int) *trees.OctTree {
+	return func(d int) *trees.OctTree {
+		if attr == modeling.PositionAttribute {
+			if d < 0 {
+				return m.OctTree()
+			}
+			return m.OctTreeDepth(d)
+		}
+		if d < 0 {
+			d = trees.OctreeDepthFromCount(m.PrimitiveCount())
+		}
+		return m.OctTreeWithAttributeAndDepth(attr, d)
+	}
 }
 
 func (c *Ctx) c16size() int {
@@ -146,13 +179,9 @@ func (c *Ctx) c16elements() c16set {
 			parts[i] = c16v(p)
 		}
 		c.Note("set.pt." + dist)
-		return c16set{kind: "pt", elems: c16scope(m), enc: fmt.Sprintf("pt %d %s", n, strings.Join(parts, " ")), verts: ps,
-			build: func(d int) *trees.OctTree {
-				if d < 0 {
-					return m.OctTree()
-				}
-				return m.OctTreeDepth(d)
-			}}
+		m, attr := c.c16alt(m, ps)
+		return c16set{kind: "pt", elems: c16scopeAttr(m, attr), enc: fmt.Sprintf("pt %d %s", n, strings.Join(parts, " ")), verts: ps,
+			build: c16build(m, attr)}
 	case 1: // line strip: n segments over n+1 vertices, consecutive vertices distinct
 		ps, dist := c.c16positions(n + 1)
 		for i := 1; i < len(ps); i++ {
@@ -166,13 +195,9 @@ func (c *Ctx) c16elements() c16set {
 			parts[i] = c16v(ps[i]) + " " + c16v(ps[i+1])
 		}
 		c.Note("set.seg." + dist)
-		return c16set{kind: "seg", elems: c16scope(m), enc: fmt.Sprintf("seg %d %s", n, strings.Join(parts, " ")), verts: ps,
-			build: func(d int) *trees.OctTree {
-				if d < 0 {
-					return m.OctTree()
-				}
-				return m.OctTreeDepth(d)
-			}}
+		m, attr := c.c16alt(m, ps)
+		return c16set{kind: "seg", elems: c16scopeAttr(m, attr), enc: fmt.Sprintf("seg %d %s", n, strings.Join(parts, " ")), verts: ps,
+			build: c16build(m, attr)}
 	case 2: // boxes (trees.BoundingBoxElement): overlapping, nested, flat
 		ps, dist := c.c16positions(n)
 		elems := make([]trees.Element, n)
@@ -217,13 +242,9 @@ func (c *Ctx) c16elements() c16set {
 		for i := 0; i < n; i++ {
 			parts[i] = c16v(tv[ti[3*i]]) + " " + c16v(tv[ti[3*i+1]]) + " " + c16v(tv[ti[3*i+2]])
 		}
-		return c16set{kind: "tri", elems: c16scope(m), enc: fmt.Sprintf("tri %d %s", n, strings.Join(parts, " ")), verts: tv, mesh: &m, intgrid: grid,
-			build: func(d int) *trees.OctTree {
-				if d < 0 {
-					return m.OctTree()
-				}
-				return m.OctTreeDepth(d)
-			}}
+		m, attr := c.c16alt(m, tv)
+		return c16set{kind: "tri", elems: c16scopeAttr(m, attr), enc: fmt.Sprintf("tri %d %s", n, strings.Join(parts, " ")), verts: tv, mesh: &m, intgrid: grid,
+			build: c16build(m, attr)}
 	}
 }
 
@@ -510,6 +531,11 @@ func (c *Ctx) c16octreeCase() {
 			c.Emit("c16.holds.closest", where+" "+fmt.Sprintf("%d", n+1)+" "+F(0)+" "+c16v(pt)+" "+c16v(pt)+" "+fmt.Sprint(n)+" "+Fs(d2s...), "true")
 		} else {
 			c.Emit("c16.holds.closest", where+" "+fmt.Sprint(id)+" "+F(pt.DistanceSquared(v))+" "+c16v(pt)+" "+c16v(cps[id])+" "+fmt.Sprint(n)+" "+Fs(d2s...), "true")
+		}
+		if modelled && id >= 0 && id < n {
+			// independent truth: the driver computes every element's closest distance from the geometry with the Lean model (the
+			// scan above goes through the library's own Scope / ClosestPoint, which would be wrong together with the tree)
+			c.Emit("c16.holds.closest_scan", where+" "+fmt.Sprint(id)+" 0 "+s.enc+" "+c16v(v)+" "+F(pt.DistanceSquared(v)), "true")
 		}
 		if modelled {
 			if nbest == 1 {
